@@ -212,7 +212,7 @@ def _c11_plan(tier, seed):
                 continue        # files carrying a supplementary link have their own configurations below
             plan.append((n, cfg, params))
         if info[n]['sup']:
-            for cfg in ('sup_plain', 'sup_main_gabi', 'sup_peer_gabi', 'sup_both_gabi', 'sup_noloader', 'sup_nofollow'):
+            for cfg in ('sup_plain', 'sup_main_gabi', 'sup_peer_gabi', 'sup_both_gabi', 'sup_noloader', 'sup_nofollow', 'sup_split_link'):
                 plan.append((n, cfg, None))
     for main, (peer, stored) in sorted(LINK_PAIRS.items()):
         for cfg in ('corpus_link', 'corpus_link_peer_gabi', 'corpus_link_nofollow', 'corpus_link_flip', 'corpus_link_trunc', 'corpus_link_wrong'):
@@ -554,6 +554,30 @@ def _c11_exec(spec):
             for s in main.debug_sections():
                 main.to_gabi(s, 6)
         peers = _sup_peers(name, 'gabi' if cfg in ('sup_peer_gabi', 'sup_both_gabi') else None)
+        if cfg == 'sup_split_link':
+            # the file with the supplementary link is itself only reachable through a debug link: stripped main' ->
+            # (debug link) -> this file -> (supplementary link) -> the common file; both peers come from the loader
+            linked = main.build()
+            stripped = _plain_image(data)
+            for sct in stripped.debug_sections():
+                stripped.rename(sct, '.stripped_' + sct['name'].lstrip('.'))
+            for nm in ('.gnu_debugaltlink', '.debug_sup', '.gnu_debuglink'):
+                if stripped.find(nm) is not None:
+                    stripped.rename(stripped.find(nm), '.old_' + nm.lstrip('.'))
+            stripped.add_debuglink(b'with_sup.debug', elfedit.crc32(linked))
+            peers = dict(peers)
+            peers[b'with_sup.debug'] = linked
+            res = open_view(stripped.build(), peers=peers, follow=True, loader=True)
+            if ref_sup['outcome'] != 'view':
+                return _skip(spec, 'reference with supplementary file rejected')
+            if res['outcome'] != 'view':
+                viol('rejected', 'the view with the supplementary file attached', list(res['exc']))
+            else:
+                for part in _diff_views(ref_sup['view'], res['view'])[:3]:
+                    viol('view-differs', 'identical ' + part, 'different ' + part, part)
+            log = [cfg, res.get('outcome'), sorted((res.get('view') or {}).items()), res.get('exc'), [bytes(x) for x in res.get('loads', [])]]
+            return dict(spec=spec, violations=violations, digest=pdigest(log), nontrivial=True, nt_digest=pdigest(name, cfg), evaluations=1,
+                        sim_time=res.get('sim_time', 0), faults=faults, probes=probes, sample=None)
         if cfg in ('sup_noloader', 'sup_nofollow'):
             res = open_view(main.build(), peers=peers, follow=(cfg != 'sup_nofollow'), loader=(cfg != 'sup_noloader'))
             if res['outcome'] != 'view':
@@ -750,8 +774,11 @@ def _c09_exec(spec):
         viol('segment-kind', 'DynamicSegment', type(seg).__name__)
         return dict(spec=spec, violations=violations, digest=pdigest(log), nontrivial=fired, evaluations=1, sim_time=stream.clock.seq,
                     faults={'shloss_' + mode: [1, int(fired)]}, probes={}, sample=None)
+    from collections import Counter
+    tcount = Counter(t[1][1][1] for t in a['tags'] if isinstance(t[1][1][1], str))
+    ftypes = sorted(t for t, n in tcount.items() if n >= 2)[:3] + sorted(t for t, n in tcount.items() if n == 1)[:2] + ['DT_NOSUCH']
     queries = ['tags', 'num_tags', 'num_symbols', 'symbols', 'reltabs', 'by_name', 'by_name_absent', 'strings'] + \
-              ['table_offset:' + t for t in sorted(a['ptr'])]
+              ['table_offset:' + t for t in sorted(a['ptr'])] + ['tags_filtered:' + t for t in ftypes] + ['get_tag']
     r.shuffle(queries)
     if spec['order'] == 0:
         queries.sort()
@@ -764,6 +791,20 @@ def _c09_exec(spec):
             st, val = _try(lambda: [canon(t) for t in seg.iter_tags()])
             if st != 'ok' or val != a['tags']:
                 viol('tags', 'the section view: %d tags' % len(a['tags']), jsonable(val, 500) if st != 'ok' else _first_diff(a['tags'], val))
+        elif q.startswith('tags_filtered:'):
+            typ = q.split(':', 1)[1]
+            st, val = _try(lambda: [canon(t) for t in seg.iter_tags(typ)])
+            exp = [t for t in a['tags'] if t[1][1][1] == typ]
+            if st != 'ok' or val != exp:
+                viol('iter_tags(type)', '%d tags of type %s in the section view' % (len(exp), typ),
+                     jsonable(val, 300) if st != 'ok' else '%d tags' % len(val))
+        elif q == 'get_tag':
+            idxs = sorted(set([0, len(a['tags']) - 1, r.randrange(len(a['tags']))])) if a['tags'] else []
+            for n in idxs:
+                st, val = _try(lambda: canon(seg.get_tag(n)))
+                if st != 'ok' or val != a['tags'][n]:
+                    viol('get_tag', jsonable(a['tags'][n], 300), jsonable(val, 300))
+                    break
         elif q == 'num_tags':
             st, val = _try(seg.num_tags)
             if st != 'ok' or val != len(a['tags']):
